@@ -295,7 +295,6 @@ func queueAlphabet(ps int, quick bool) []Q {
 		{K: queuedrv.QWrite, A: 10, B: queuedrv.ChunkOne},
 		{K: queuedrv.QWrite, A: pay - 4, B: queuedrv.ChunkFirst},
 		{K: queuedrv.QWrite, A: pay - 3, B: queuedrv.ChunkOne},
-		{K: queuedrv.QWrite, A: pay/2 - 4, B: queuedrv.ChunkOne}, // two of them fill a page exactly
 		{K: queuedrv.QWrite, A: 3000, B: queuedrv.ChunkPage},
 		{K: queuedrv.QWritePart, A: 2500, B: queuedrv.ChunkPage},
 		{K: queuedrv.QFlush},
@@ -411,7 +410,8 @@ func runQueueCheck(ctx *core.Ctx, pool *par.Pool, id string) {
 			{{K: queuedrv.QWrite, A: h}, {K: queuedrv.QWrite, A: h}, {K: queuedrv.QFlush}, {K: queuedrv.QReopen}, {K: queuedrv.QReadAll}, {K: queuedrv.QWrite, A: 100}, {K: queuedrv.QFlush}},
 		}
 		sd := depth - 2
-		st := qBFSroots(ctx, pool, c, seeds, queueAlphabet(qc.File.PageSize, quick), sd, false, true, owns, nil)
+		alpha := append(queueAlphabet(qc.File.PageSize, true), Q{K: queuedrv.QWrite, A: h, B: queuedrv.ChunkOne}, Q{K: queuedrv.QWrite, A: 100, B: queuedrv.ChunkOne})
+		st := qBFSroots(ctx, pool, c, seeds, alpha, sd, false, true, owns, nil)
 		total.States += st.States
 		total.Transitions += st.Transitions
 		ctx.Set("depth_full-tail-page_"+c.String(), st.Depth)
